@@ -40,6 +40,9 @@ TRUSTED = [
     "pass-through recorders in the driver process only",
     "utils.bootstrap_ci is the subject of C13: here a stub that checks its arguments and returns the recorded result; the "
     "C13 correspondence term is evaluated on the recorded arrays",
+    "translator whitelist of harness/translate/showbias_tr.py: _apply_normalization and the flow of showbias from "
+    "`group_names = ...` on are translated as written; the pandas-facing statements that build `groups` / `threshold` are "
+    "accepted only in their exact present shape (their meaning is tied by correspondence, not by the translator)",
 ] + C13.TRUSTED[:2]
 ASSUMPTIONS = [
     "string group values; every row has one value per group column; finite scores; threshold given, non-empty; alpha in (0,1); "
@@ -51,6 +54,15 @@ ASSUMPTIONS = [
     "its row (and thereby its original group values) independently of the implementation's internal group numbering",
 ]
 TOL = Fraction(1, 2 ** 46)
+
+
+def _ties():
+    from harness.translate import showbias_tr
+    return [{"name": "showbias.py: _apply_normalization, _get_group_index, showbias", "translate": showbias_tr.translate_showbias,
+             "gen_file": "Gen_showbias.v", "tie_file": "Tie_showbias.v"}]
+
+
+TIES = _ties()
 
 METRICS = ["pop", "accuracy", "error_rate", "tp", "tn", "fp", "fn", "p", "n", "top", "ton", "tpr", "tnr", "fpr", "fnr",
            "tar", "frr", "trr", "far", "topr", "tonr", "acceptance_rate", "rejection_rate", "ppv", "npv", "fdr", "for_",
